@@ -53,6 +53,17 @@ func NewClient(p *Pkg, baseURL string, do func(*http.Request) (*http.Response, e
 	return c, nil
 }
 
+// SetHTTPClient puts a real *http.Client into the generated Client's HTTPClient field
+// (what most applications do); false when the field does not take one.
+func SetHTTPClient(client reflect.Value, hc *http.Client) bool {
+	hf := client.Elem().FieldByName("HTTPClient")
+	if !hf.IsValid() || !reflect.TypeOf(hc).AssignableTo(hf.Type()) {
+		return false
+	}
+	hf.Set(reflect.ValueOf(hc))
+	return true
+}
+
 // CallClient invokes the client method of op.
 func CallClient(client reflect.Value, op *Op, params reflect.Value) (resp reflect.Value, err error, panicked string) {
 	defer func() {
